@@ -3,6 +3,7 @@
    collectors = list of collectors, each the list of descriptors its Describe emits:
                 (0) = NewInvalidDesc | (1 fq help (vars...) ((name value)...)) = NewDesc
    op    = (0 wrappers cidx) Register | (1 wrappers cidx) Unregister | (2) Gather
+           | (3 wrappers (cidx...)) MustRegister(c1..cn), answered like Register: (0 kind arg), nil = no panic
            wrappers = list of (prefix ((name value)...)) in the order they are applied to a descriptor
    impl  = one entry per op: (0 kind arg) | (1 bool) | (2 (names...))
            kind: 0 nil, 1 AlreadyRegisteredError (arg = index of ExistingCollector, -1 if not one of ours),
@@ -43,6 +44,20 @@ Definition d_op (colls : list (list desc)) (s : sx) : option op :=
       | _, _ => None
       end
   | SL [SZ 2] => Some OGather
+  | SL [SZ 3; ws; cs] =>
+      match dL d_wrapper ws, dL dZ cs with
+      | Some ws, Some cs =>
+          match mapM (fun c => if 0 <=? c then
+                                 match nth_error colls (Z.to_nat c) with
+                                 | Some ds => Some (c, map (apply_wrappers ws) ds)
+                                 | None => None
+                                 end
+                               else None) cs with
+          | Some l => Some (OMust l)
+          | None => None
+          end
+      | _, _ => None
+      end
   | _ => None
   end.
 
